@@ -165,12 +165,9 @@ def exact_matrices():
     residual is the number 0.0, so tol = 0 stops exactly at KDim.  1x1, permutations (coordinate and constant
     starts), scaled / complex monomial matrices, diagonal (eigenvector starts, +-1 spectrum with constant start),
     block diagonal (start supported on one block), identity, nilpotent shifts."""
-    I2 = [[1, 0], [0, 1]]
     I4 = [[1 if i == j else 0 for j in range(4)] for i in range(4)]
-    I5 = [[1 if i == j else 0 for j in range(5)] for i in range(5)]
     F4 = [[1, 1, 1, 1], [1, 1j, -1, -1j], [1, -1, 1, -1], [1, -1j, -1, 1j]]
     c3 = [[0, 0, 1], [1, 0, 0], [0, 1, 0]]
-    sw = [[0, 1], [1, 0]]
     X = [
         _exact(_entry("x1r", [[1]], [3]), [("s2", [2]), ("m1", [-1])]),
         _exact(_entry("x1c", [[1]], [1 + 2j]), [("s2i", [2j]), ("s1", [1])]),
@@ -180,13 +177,14 @@ def exact_matrices():
         _exact(_entry("xperm4", F4, [1, 1j, -1, -1j]),
                [("e1", [1, 0, 0, 0]), ("ones", [1, 1, 1, 1]), ("pm", [1, 1, -1, -1]), ("alt", [1, -1, 1, -1]),
                 ("4e3", [0, 0, 4, 0])]),
-        _exact(_plain("xperm5", _blocks(c3, I2)),
-               [("2e1", [2, 0, 0, 0, 0]), ("e4", [0, 0, 0, 1, 0]), ("ones4", [1, 1, 1, 1, 0]), ("e3", [0, 0, 1, 0, 0])]),
-        _exact(_plain("xperm6", _blocks(sw, c3, [[1]])),
-               [("e1", _unit(6, 0)), ("e3", _unit(6, 2)), ("e6", _unit(6, 5, -2)), ("ones4", [1, 1, 1, 1, 0, 0])]),
+        _exact(_plain("xperm4b", _blocks(c3, [[1]])),
+               [("2e1", [2, 0, 0, 0]), ("e4", [0, 0, 0, 1]), ("ones", [1, 1, 1, 1]), ("e3", [0, 0, 1, 0])]),
+        _exact(_entry("xperm4s", [[1, 1, 0, 0], [1, -1, 0, 0], [0, 0, 1, 1], [0, 0, 1, -1]], [1, -1, 1, -1]),
+               [("e1", _unit(4, 0)), ("e3", _unit(4, 2)), ("ones", [1, 1, 1, 1]), ("alt", [1, -1, 1, -1]),
+                ("m2e4", _unit(4, 3, -2))]),
         _exact(_plain("xmono3", _perm([1, 2, 0], [2, 1, -2])), [("e1", [1, 0, 0]), ("4e2", [0, 4, 0])]),
         _exact(_plain("xmono3c", _perm([1, 2, 0], [1, -1j, 1j])), [("e1", [1, 0, 0]), ("ie3", [0, 0, 1j])]),
-        _exact(_entry("xdiag5", I5, [1, 2, 3, 4, 5]), [("e3", _unit(5, 2)), ("m2e5", _unit(5, 4, -2)), ("e1", _unit(5, 0))]),
+        _exact(_entry("xdiag4", I4, [1, 2, 3, 4]), [("e3", _unit(4, 2)), ("m2e4", _unit(4, 3, -2)), ("e1", _unit(4, 0))]),
         _exact(_entry("xdiag4s", I4, [1, -1, 1, -1]),
                [("ones", [1, 1, 1, 1]), ("e2", [0, 1, 0, 0]), ("pm", [1, 1, -1, -1])]),
         _exact(_entry("xdiag3z", [[1, 0, 0], [0, 1, 0], [0, 0, 1]], [0, 2, 3]), [("e1", [1, 0, 0]), ("e2", [0, 2, 0])]),
@@ -200,8 +198,8 @@ def exact_matrices():
         _exact(_entry("xid3s", [[1, 0, 0], [0, 1, 0], [0, 0, 1]], [2, 2, 2]), [("e1", [1, 0, 0]), ("m2e3", [0, 0, -2])]),
         _exact(_plain("xnil4", _perm([1, 2, 3, 0], [1, 1, 1, 0])),
                [("e1", _unit(4, 0)), ("e3", _unit(4, 2)), ("e4", _unit(4, 3)), ("2e2", _unit(4, 1, 2))]),
-        _exact(_plain("xnil5u", _perm([4, 0, 1, 2, 3], [0, 1, 1, 1, 1])),
-               [("e5", _unit(5, 4)), ("e2", _unit(5, 1)), ("e3", _unit(5, 2))]),
+        _exact(_plain("xnil4u", _perm([3, 0, 1, 2], [0, 1, 1, 1])),
+               [("e4", _unit(4, 3)), ("e2", _unit(4, 1)), ("e3", _unit(4, 2))]),
     ]
     return X
 
